@@ -10,9 +10,10 @@ namespace Mtv.Client
 
 /-- **the receive loop handles every message**: whatever the server sends — results for unknown or already
 answered requests, notifications, unknown constructors and malformed bodies (`odd`), empty and nested
-containers to any depth — processing yields a next state; there is no message on which the loop stops -/
+containers to any depth (beyond `maxContainerDepth` the container is refused as a whole, with a warning) —
+processing yields a next state; there is no message on which the loop stops -/
 theorem recv_total (s : St) (mid seq : Nat) (m : Msg) : ∃ s', step s (.recv mid seq m) = some s' :=
-  ⟨process s mid seq m, rfl⟩
+  ⟨process 0 s mid seq m, rfl⟩
 
 /-- the loop's state stays within the invariants that make every owed action possible, after ANY
 history of server messages interleaved with any client activity -/
@@ -41,15 +42,25 @@ theorem probe_completes (s : St) (c id seq : Nat) (v : String)
 /-- well-formed service traffic is handled silently: pong, msgs_ack, an empty container change nothing
 but the acknowledgement bookkeeping and raise no warning -/
 theorem service_traffic_silent (s : St) (mid seq : Nat) :
-    (process s mid seq .quiet).warnings = s.warnings ∧ (process s mid seq (.cont [])).warnings = s.warnings ∧
-    (process s mid seq .quiet).pending = s.pending := by
-  simp only [process, processAll, oweAck]
+    (process 0 s mid seq .quiet).warnings = s.warnings ∧ (process 0 s mid seq (.cont [])).warnings = s.warnings ∧
+    (process 0 s mid seq .quiet).pending = s.pending := by
+  simp only [process, processAll, oweAck, maxContainerDepth, show (0 : Nat) < 4 from by decide, if_true]
+  split <;> simp
+
+/-- a container nested deeper than the client accepts is refused as a whole: one warning, nothing else
+changes — its members are never looked at, whatever they are and however many levels follow (this is
+what bounds the memory a nested message can cost: every accepted level holds a copy of the levels below) -/
+theorem too_deep_is_warned (s : St) (d mid seq : Nat) (hd : maxContainerDepth ≤ d) (ms : List (Nat × Nat × Msg)) :
+    (process d s mid seq (.cont ms)).warnings = s.warnings + 1 ∧ (process d s mid seq (.cont ms)).pending = s.pending ∧
+    (process d s mid seq (.cont ms)).owedDeliver = s.owedDeliver := by
+  have : ¬ d < maxContainerDepth := by omega
+  simp only [process, this, if_false, warnStep, oweAck]
   split <;> simp
 
 /-- anything the client cannot make sense of is surfaced as a warning and changes nothing else -/
 theorem odd_is_warned (s : St) (mid seq : Nat) :
-    (process s mid seq .odd).warnings = s.warnings + 1 ∧ (process s mid seq .odd).pending = s.pending ∧
-    (process s mid seq .odd).owedDeliver = s.owedDeliver := by
+    (process 0 s mid seq .odd).warnings = s.warnings + 1 ∧ (process 0 s mid seq .odd).pending = s.pending ∧
+    (process 0 s mid seq .odd).owedDeliver = s.owedDeliver := by
   simp only [process, warnStep, oweAck]
   split <;> simp
 
